@@ -167,18 +167,22 @@ DKINDS = [
     ('am.consumer.p = @am.Cls()', None, None, ('consumer', 'p')),
     ('am.consumer.q = @am.nosuch()', None, 'am.nosuch', ('consumer', 'q')),
     ('am.Cls.x = 5', None, None, ('Cls', 'x')),
+    # `qm` is an alias only an EARLIER parse imported (its members are registered as vfx.alpha.qm.*):
+    # in this file it is provided by no import, hence unknown
+    ('qm.fn.y = 1', 'qm.fn', None, None),
+    ('am.consumer.q = @qm.Cls()', None, 'qm.Cls', ('consumer', 'q')),
 ]
-DSKIPS = [False, True, ['am.nosuch', 'zz.fn'], ['zz.fn']]
+DSKIPS = [False, True, ['am.nosuch', 'zz.fn', 'qm.fn', 'qm.Cls'], ['zz.fn']]
 
 
 def c15_dynamic(n: int, k0: int, k1: int, k2: int, skip: int, pre: bool, v0: int) -> bool:
   """
-  pre: 1 <= n <= 3 and 0 <= k0 < 6 and 0 <= k1 < 6 and 0 <= k2 < 6 and 0 <= skip < 4
+  pre: 1 <= n <= 3 and 0 <= k0 < 8 and 0 <= k1 < 8 and 0 <= k2 < 8 and 0 <= skip < 4
   """
   from vf.harness import c19
   world.fresh()
   c19.cleanup_vfx()
-  ks = [rt.pick(k, 6) for k in (k0, k1, k2)[:n]]
+  ks = [rt.pick(k, 8) for k in (k0, k1, k2)[:n]]
   skip = rt.pick(skip, 4)
   pre = rt.flag(pre)
   sk = DSKIPS[skip]
@@ -188,7 +192,7 @@ def c15_dynamic(n: int, k0: int, k1: int, k2: int, skip: int, pre: bool, v0: int
     with rt.native():
       if pre:
         # an earlier, unrelated parse already registered everything: must make no difference
-        gin.parse_config(DR + 'am.fn.y = 1\nam.Cls.x = 0\nam.consumer.q = 0\n')
+        gin.parse_config(DR.replace(' as am', ' as qm') + 'qm.fn.y = 1\nqm.Cls.x = 0\nqm.consumer.q = 0\n')
         gc._CONFIG.clear(); gc._CONFIG_PROVENANCE.clear()
       want, error = [], None
       for k in ks:
@@ -231,9 +235,9 @@ HARNESSES['c15_dynamic'] = dict(
     anchors=['gin.config:_should_skip', 'gin.config:_resolve_selector'],
     smoke=[dict(n=3, k0=0, k1=1, k2=3, skip=1, pre=False, v0=4),
            dict(n=2, k0=5, k1=4, k2=0, skip=2, pre=True, v0=4)],
-    tiers={'quick': dict(split=dict(k0=list(range(6)), skip=[0, 1, 2, 3]), fixed=dict(n=3), budget_s=100),
-           'thorough': dict(split=dict(k0=list(range(6)), skip=[0, 1, 2, 3], pre=[False, True]),
+    tiers={'quick': dict(split=dict(k0=list(range(8)), skip=[0, 1, 2, 3]), fixed=dict(n=3), budget_s=100),
+           'thorough': dict(split=dict(k0=list(range(8)), skip=[0, 1, 2, 3], pre=[False, True]),
                             fixed=dict(n=3), budget_s=300)},
-    bounds='dynamic registration against the fixture package: 3 statements from 6 kinds (importable and not yet '
+    bounds='dynamic registration against the fixture package: 3 statements from 8 kinds (importable and not yet '
            'registered function / class / reference, missing attribute, name not imported, reference to a missing '
-           'attribute) x 4 forms of skip_unknown x registry pre-populated by an earlier parse or not')
+           'attribute, a binding / reference through an alias that only an earlier parse imported) x 4 forms of skip_unknown x registry pre-populated by an earlier parse or not')
